@@ -124,11 +124,14 @@ int tcp_set_keepalive(struct tcp_opts *opts, int fd, bool keepalive)
 	    errno = EINVAL;						\
 	    return -1;							\
 	}								\
+	int64_t old_value = opts->optname;				\
 	opts->optname = value;						\
 	if (fd < 0)							\
 	    return 0;							\
-	if (effectuate_ ## optname(fd, value) < 0)			\
+	if (effectuate_ ## optname(fd, value) < 0) {			\
+	    opts->optname = old_value;					\
 	    return -1;							\
+	}								\
 	return 0;							\
     }
 
